@@ -997,3 +997,115 @@ Example only_empty_series_raises :
   roundtrip false [("e"%string, ISer OZArith "" (empty_series OZArith 1))] = Err 5.
 Proof. vm_compute. reflexivity. Qed.
 End CsvExamples.
+
+(* ====================================================================== the default export is lossless *)
+Section CsvLossless.
+Variable A : Arith.
+Notation V := (car A).
+Notation series := (series A).
+Notation databox := (databox A).
+Hypothesis miss_law : forall x : V, is_miss A x = true -> x = miss A.
+Hypothesis miss_is_miss : is_miss A (miss A) = true.
+Variable fmt_period : Z -> Z -> string.
+Variable parse_period : Z -> string -> option Z.
+Variable fmt_val : V -> string.
+Variable parse_val : string -> V.
+Variable rnd : V -> V.
+Hypothesis fmt_period_nonempty : forall f t, fmt_period f t <> ""%string.
+Hypothesis period_roundtrip : forall f t, parse_period f (fmt_period f t) = Some t.
+Hypothesis value_roundtrip : forall x, is_miss A (rnd x) = false -> parse_val (fmt_val (rnd x)) = rnd x.
+Hypothesis rnd_keeps_missing : forall x, is_miss A (rnd x) = is_miss A x.
+Variable o : wopts.
+Hypothesis nan_roundtrip : parse_val (w_nan o) = miss A.
+
+(* Databox.get_span_by_frequency covers every series of the frequency *)
+Lemma span_covers_series (db1 : databox) f n d (s : series) st t :
+  f <> -1 -> In (n, (d, s)) (series_of_freq A db1 f) -> s_start s = Some st ->
+  st <= t < st + Z.of_nat (length (s_data s)) -> In t (span_of_freq A db1 f).
+Proof.
+  intros Hf Hin Es Ht. unfold span_of_freq. destruct (Z.eqb_spec f (-1)); [contradiction|].
+  destruct (series_of_freq A db1 f) as [|[nm0 [d0 s0]] r] eqn:E; [destruct Hin|].
+  cbn [snd fst]. apply In_zrange.
+  set (starts := map (fun p : string * (string * series) => match s_start (snd (snd p)) with Some x => x | None => 0 end) r).
+  set (ends := map (fun p : string * (string * series) => match s_end A (snd (snd p)) with Some x => x | None => 0 end) r).
+  pose proof (minl_le (match s_start s0 with Some x => x | None => 0 end) starts) as [M1 M2].
+  pose proof (maxl_ge (match s_end A s0 with Some x => x | None => 0 end) ends) as [X1 X2].
+  destruct Hin as [Eh|Hin].
+  - inversion Eh; subst. unfold s_end in *. rewrite Es in *. lia.
+  - assert (H1 : In st starts).
+    { unfold starts. apply in_map_iff. exists (n, (d, s)). cbn [snd]. rewrite Es. split; [reflexivity|assumption]. }
+    assert (H2 : In (st + Z.of_nat (length (s_data s)) - 1) ends).
+    { unfold ends. apply in_map_iff. exists (n, (d, s)). cbn [snd]. unfold s_end. rewrite Es. split; [reflexivity|assumption]. }
+    specialize (M2 _ H1). specialize (X2 _ H2). lia.
+Qed.
+
+Lemma default_order_facts :
+  NoDup default_freq_order /\ forall f, In f default_freq_order -> In f (map snd freq_members).
+Proof.
+  split.
+  - assert (H : forall l : list Z, (fix nd (l : list Z) := match l with [] => true | x :: r => negb (existsb (Z.eqb x) r) && nd r end) l = true -> NoDup l).
+    { induction l as [|x r IH]; intros H; [constructor|]. apply andb_true_iff in H as [H1 H2]. constructor; [|now apply IH].
+      intros Hin. apply negb_true_iff in H1. assert (existsb (Z.eqb x) r = true) by (apply existsb_exists; exists x; split; [assumption|apply Z.eqb_refl]). congruence. }
+    apply H. vm_compute. reflexivity.
+  - assert (H : forallb (fun f => existsb (Z.eqb f) (map snd freq_members)) default_freq_order = true) by (vm_compute; reflexivity).
+    intros f Hf. rewrite forallb_forall in H. specialize (H f Hf). apply existsb_exists in H as (g & Hg & E).
+    apply Z.eqb_eq in E. now subst.
+Qed.
+
+Theorem csv_lossless_default (db : databox) :
+  let db1 := selected A db o in
+  w_fspan o = default_fspan ->
+  (forall n d s, dget A db1 n = Some (ISer A d s) ->
+     good_name n /\ WF A s /\ Trimmed A s /\ (1 <= s_nv s)%nat /\ s_start s <> None /\
+     In (s_freq s) default_freq_order /\ s_freq s <> -1) ->
+  exists db', import A parse_period parse_val (w_desc o) (export A fmt_period fmt_val rnd db o) = Ok db' /\
+    forall n, dget A db' n = match dget A db1 n with
+                             | Some (INon (ESer d s)) => Some (ISer A (if w_desc o then d else ""%string) (rounded A rnd s))
+                             | _ => None
+                             end.
+Proof.
+  intros db1 Hfs Hgood. destruct default_order_facts as [Hnd Hmem].
+  assert (Hnd1 : ND A db1) by apply ND_shallow.
+  assert (Hps : forall f ps, In (f, ps) (resolve_fspan A db1 (w_fspan o)) -> In f default_freq_order /\ ps = span_of_freq A db1 f).
+  { intros f ps Hin. rewrite Hfs in Hin. unfold resolve_fspan, default_fspan in Hin. rewrite map_map in Hin.
+    apply in_map_iff in Hin as (g & E & Hg). cbn [fst snd] in E. inversion E; subst. split; [assumption|reflexivity]. }
+  assert (Hcov : forall n d s ps st, dget A db1 n = Some (ISer A d s) -> s_start s = Some st ->
+            In (sfreq A s, ps) (resolve_fspan A db1 (w_fspan o)) ->
+            sfreq A s = s_freq s /\ forall t, st <= t < st + Z.of_nat (length (s_data s)) -> In t ps).
+  { intros n d s ps st Hget Es Hin. assert (Ef : sfreq A s = s_freq s) by (unfold sfreq; now rewrite Es).
+    split; [assumption|]. intros t Ht. destruct (Hps _ _ Hin) as [Hf ->].
+    apply (span_covers_series db1 (sfreq A s) n d s st t); try assumption.
+    - destruct (Hgood n d s Hget) as (_ & _ & _ & _ & _ & _ & Hm1). now rewrite Ef.
+    - apply In_series_of_freq. split; [now apply In_db_dget|reflexivity]. }
+  destruct (csv_roundtrip A miss_law fmt_period parse_period fmt_val parse_val rnd fmt_period_nonempty period_roundtrip
+              value_roundtrip o nan_roundtrip db) as (db' & Himp & H1 & H2).
+  - rewrite Hfs. unfold default_fspan. rewrite map_map. cbn [fst]. now rewrite map_id.
+  - intros n d s ps Hget Hin. fold db1 in Hget, Hin. destruct (Hgood n d s Hget) as (G1 & G2 & G3 & G4 & G5 & G6 & G7).
+    destruct (s_start s) as [st|] eqn:Es; [|contradiction].
+    destruct (Hcov n d s ps st Hget Es Hin) as [Ef Hc].
+    split; [assumption|]. split; [assumption|]. split; [assumption|]. split.
+    + intros E. subst ps. unfold Trimmed in G3. rewrite Es in G3. destruct G3 as (Hne & _).
+      apply (Hc st). destruct (s_data s); [contradiction|]. simpl. lia.
+    + apply marks_roundtrip. apply Hmem. rewrite Ef. exact G6.
+  - exists db'. split; [exact Himp|]. intros n. fold db1 in H1, H2.
+    destruct (dget A db1 n) as [[[v|d s]|l]|] eqn:Hget.
+    + apply H2. intros d0 s0 ps0 E. rewrite Hget in E. unfold ISer in E. discriminate E.
+    + destruct (Hgood n d s Hget) as (G1 & G2 & G3 & G4 & G5 & G6 & G7).
+      destruct (s_start s) as [st|] eqn:Es; [|contradiction].
+      assert (Ef : sfreq A s = s_freq s) by (unfold sfreq; now rewrite Es).
+      assert (Hin : In (sfreq A s, span_of_freq A db1 (sfreq A s)) (resolve_fspan A db1 (w_fspan o))).
+      { rewrite Hfs. unfold resolve_fspan, default_fspan. rewrite map_map. apply in_map_iff. exists (sfreq A s).
+        split; [reflexivity|]. rewrite Ef. exact G6. }
+      destruct (Hcov n d s _ st Hget Es Hin) as [_ Hc].
+      rewrite (H1 n d s _ Hget Hin). cbv zeta.
+      pose proof (imp_series_identity A miss_law rnd miss_is_miss _ s st rnd_keeps_missing G2 G3 Es Hc) as Hid.
+      rewrite <- Ef in Hid. rewrite Hid.
+      f_equal. unfold ISer. f_equal. f_equal. unfold kept_desc, rounded. cbn [s_start]. rewrite Es.
+      destruct (span_of_freq A db1 (sfreq A s)) eqn:E; [|reflexivity].
+      exfalso. unfold Trimmed in G3. rewrite Es in G3. destruct G3 as (Hne & _).
+      apply (Hc st). destruct (s_data s); [contradiction|]. simpl. lia.
+    + apply H2. intros d0 s0 ps0 E. rewrite Hget in E. unfold ISer in E. discriminate E.
+    + apply H2. intros d0 s0 ps0 E. rewrite Hget in E. unfold ISer in E. discriminate E.
+Qed.
+
+End CsvLossless.
